@@ -5,6 +5,7 @@ import (
 	"fmt"
 	"io"
 	"math"
+	"math/bits"
 	"slices"
 	"strconv"
 
@@ -400,40 +401,94 @@ func adjacentQuadrantY(quadrantI int) int {
 	return quadrantI ^ 0b10
 }
 
-// lineIntersects tests whether a line intersects with an extent.
-// TODO this can probably be faster by reusing the edges for the other three quadrants and/or only testing relevant edges (hints)
+// lineIntersects tests whether a (closed) line intersects with a (half-open) extent:
+// the left and bottom edges of the extent belong to it, the right and top edges do not.
+// Exact integer arithmetic (no conversion to floats), so every tie is decided consistently:
+// an endpoint on a border, a line along a border, a line through a corner.
 func lineIntersects(intLine intgeom.Line, intExtent intgeom.Extent) bool {
 	// First see if a point is inside (cheap test).
-	pt1IsInsideQuadrant := containsPoint(intLine[0], intExtent)
-	pt2IsInsideQuadrant := containsPoint(intLine[1], intExtent)
-	if pt1IsInsideQuadrant || pt2IsInsideQuadrant {
+	if containsPoint(intLine[0], intExtent) || containsPoint(intLine[1], intExtent) {
 		return true
 	}
-
-	for edgeI, intEdge := range intExtent.Edges(nil) {
-		intersection, intersects := intgeom.SegmentIntersect(intLine, intEdge)
-		// Checking for intersection cq crossing is not enough. The right and top edges are exclusive.
-		// So there are exceptions ...:
-		if intersects { //nolint:nestif
-			if isExclusiveEdge(edgeI) {
-				if intLine[0] == intersection || intLine[1] == intersection {
-					// The tip of a line coming from the outside touches the (exclusive) edge.
-					continue
-				}
-			} else {
-				// The tip of a line coming from the outside touches the exclusive tip of an inclusive edge.
-				exclusivePoint := getExclusiveTip(edgeI, intEdge)
-				if intLine[0] == exclusivePoint || intLine[1] == exclusivePoint {
-					continue
-				}
+	// Clip the parameter interval: the part of the line inside the extent is
+	// {p + t*d | lo <(=) t <(=) hi}, lo and hi being fractions num/den (den > 0) that are closed (inclusive) or not.
+	lo := bound{0, 1, true}
+	hi := bound{1, 1, true}
+	for ax := 0; ax < 2; ax++ {
+		p := intLine[0][ax]
+		d := intLine[1][ax] - p
+		minOrd, maxOrd := intExtent[ax], intExtent[ax+2]
+		switch {
+		case d == 0:
+			if p < minOrd || p >= maxOrd {
+				return false
 			}
-			return true
-		} else if !isExclusiveEdge(edgeI) && lineOverlapsInclusiveEdge(intLine, edgeI, intEdge) {
-			// No intersection but overlap on an inclusive edge.
-			return true
+		case d > 0:
+			lo = lo.max(bound{minOrd - p, d, true})
+			hi = hi.min(bound{maxOrd - p, d, false})
+		default:
+			lo = lo.max(bound{p - maxOrd, -d, false})
+			hi = hi.min(bound{p - minOrd, -d, true})
 		}
 	}
-	return false
+	c := cmpFrac(lo.num, lo.den, hi.num, hi.den)
+	return c < 0 || c == 0 && lo.closed && hi.closed
+}
+
+// bound is a (lower or upper) bound num/den (den > 0) of an interval, closed (inclusive) or not
+type bound struct {
+	num, den int64
+	closed   bool
+}
+
+// max returns the tighter of two lower bounds
+func (b bound) max(o bound) bound {
+	c := cmpFrac(b.num, b.den, o.num, o.den)
+	if c < 0 || c == 0 && !o.closed {
+		return o
+	}
+	return b
+}
+
+// min returns the tighter of two upper bounds
+func (b bound) min(o bound) bound {
+	c := cmpFrac(b.num, b.den, o.num, o.den)
+	if c > 0 || c == 0 && !o.closed {
+		return o
+	}
+	return b
+}
+
+// cmpFrac compares a/b with c/d (b, d > 0) without overflowing, using 128 bit products.
+// It returns -1, 0 or 1.
+func cmpFrac(a, b, c, d int64) int {
+	if (a < 0) != (c < 0) {
+		if a < 0 {
+			return -1
+		}
+		return 1
+	}
+	// same sign: compare the magnitudes |a|*d and |c|*b
+	hi1, lo1 := bits.Mul64(abs64(a), uint64(d))
+	hi2, lo2 := bits.Mul64(abs64(c), uint64(b))
+	cmp := 0
+	switch {
+	case hi1 < hi2 || hi1 == hi2 && lo1 < lo2:
+		cmp = -1
+	case hi1 > hi2 || hi1 == hi2 && lo1 > lo2:
+		cmp = 1
+	}
+	if a < 0 {
+		return -cmp // both negative: the larger magnitude is the smaller fraction
+	}
+	return cmp
+}
+
+func abs64(v int64) uint64 {
+	if v < 0 {
+		return uint64(-v)
+	}
+	return uint64(v)
 }
 
 func (ix *PointIndex) GetHitMultiple(l Level) map[intgeom.Point][]int {
@@ -455,48 +510,6 @@ func checkPointHits(ix *PointIndex, vertex intgeom.Point, ringID int, level uint
 		// first hit of this point by any ring
 		levelHitOnce[vertex] = append(levelHitOnce[vertex], ringID)
 	}
-}
-
-func isExclusiveEdge(edgeI int) bool {
-	i := edgeI % 4
-	return i == 1 || i == 2
-}
-
-// getExclusiveTip returns the tip point of an inclusive edge that is not-inclusive
-func getExclusiveTip(edgeI int, edge intgeom.Line) intgeom.Point {
-	i := edgeI % 4
-	if i == 0 {
-		return edge[1]
-	} else if i == 3 {
-		return edge[0]
-	}
-	panic(fmt.Sprintf("not an inclusive edge: %v", edgeI))
-}
-
-// lineOverlapsInclusiveEdge helps to check if a line overlaps an inclusive edge (excluding the exclusive tip)
-func lineOverlapsInclusiveEdge(intLine intgeom.Line, edgeI int, intEdge intgeom.Line) bool {
-	var constAx, varAx int
-	switch {
-	case intEdge[0][xAx] == intEdge[1][xAx]:
-		constAx = xAx
-		varAx = yAx
-	case intEdge[0][yAx] == intEdge[1][yAx]:
-		constAx = yAx
-		varAx = xAx
-	default:
-		panic(fmt.Sprintf("not a straight edge: %v", intEdge))
-	}
-	eConstOrd := intEdge[0][constAx]
-	if intLine[0][constAx] != eConstOrd || intLine[1][constAx] != eConstOrd {
-		return false // not a straight line and/or not on same line as the edge, so no overlap
-	}
-	eOrd1 := intEdge[0][varAx]
-	eOrd2 := intEdge[1][varAx]
-
-	exclusiveTip := getExclusiveTip(edgeI, intEdge)
-	lOrd1 := intLine[0][varAx]
-	lOrd2 := intLine[1][varAx]
-	return lOrd1 != lOrd2 && (mathhelp.IBetweenInc(lOrd1, eOrd1, eOrd2) && intLine[0] != exclusiveTip || mathhelp.IBetweenInc(lOrd2, eOrd1, eOrd2) && intLine[1] != exclusiveTip)
 }
 
 func oneIfRight(quadrantI int) int {
